@@ -39,8 +39,10 @@ fn allocated() -> u64 {
 // long a case takes on the wall depends on what else the machine is doing (a loaded or freshly
 // restored sandbox once pushed a 1 s case over a 2 s wall limit), CPU time of the one thread
 // does not. Wall-clock time is only a backstop for a thread that blocks without computing.
-const SLOW_CPU_SECS: f64 = 5.0;
-const HANG_CPU_SECS: f64 = 30.0;
+const SLOW_CPU_SECS: f64 = 10.0;
+/// largest CPU time one input needed, in microseconds (reported in the evidence)
+static MAX_CPU_US: std::sync::atomic::AtomicU64 = std::sync::atomic::AtomicU64::new(0);
+const HANG_CPU_SECS: f64 = 60.0;
 const HANG_WALL_SECS: u64 = 300;
 
 fn cpu_of(clock: libc::clockid_t) -> f64 {
@@ -393,6 +395,7 @@ fn exercise(bytes: &[u8]) -> (Vec<(String, String)>, u64, bool) {
     }
     slot_leave();
     let dt = thread_cpu() - t0;
+    MAX_CPU_US.fetch_max((dt * 1e6) as u64, std::sync::atomic::Ordering::Relaxed);
     if dt > SLOW_CPU_SECS {
         out.push(("slow".into(), format!("one {}-byte input took {dt:.1} s of CPU time", bytes.len())));
     }
@@ -829,7 +832,7 @@ pub fn run(run: &mut Run) -> Finish {
             "the property quantifies over all byte strings; this check covers the three stated bounded layers only".into(),
             "allocation is measured as bytes requested by the calling thread (cumulative, not peak)".into(),
         ],
-        coverage_extra: json!({"b2_max_len": blen, "mappings_max_len": mlen, "max_deviations": maxdev}),
+        coverage_extra: json!({"b2_max_len": blen, "mappings_max_len": mlen, "max_deviations": maxdev, "max_cpu_seconds_for_one_input": MAX_CPU_US.load(std::sync::atomic::Ordering::Relaxed) as f64 / 1e6, "slow_limit_cpu_seconds": SLOW_CPU_SECS}),
     }
 }
 
